@@ -1,9 +1,11 @@
 (** Boolean classifiers of the recorded known findings (one per `known:` line of
     /verif/known-findings.txt).  A property theorem excludes exactly these
-    classes; the run-time check evaluates the same functions. *)
+    classes; the run-time check evaluates the same functions.
+
+    This file holds the classifiers of C14's VersionNum half: none is left.
+    (The class c14_overflow - u32 overflow of VersionNum::next for padding widths
+    above 10 and at number u32::MAX - was repaired by fix 476b184; the theorems of
+    Props/C14.v about next hold for every width and number now.)  The classifiers
+    of the other properties live in Model/Known<ID>.v. *)
 From Rocfl Require Import Base.Bytes Model.VersionNum.
 Open Scope N_scope.
-
-(** C14: u32 arithmetic of VersionNum::next overflows for padding widths above
-    10 (10^(w-1) does not fit u32) and at number = u32::MAX. *)
-Definition c14_overflow (v : vnum) : bool := (10 <? vn_width v) || (vn_number v =? U32MAX).
